@@ -24,16 +24,16 @@ func (Prop) Plan(t vp.Tier) []vp.Stage {
 	// children run with few Ps (RunBatch varies the number per batch).
 	env := []string{"GOMAXPROCS=2"}
 	return []vp.Stage{
-		{Name: "clonepool", NBatches: 16, TimeoutS: 1200, Env: env},
-		{Name: "unsafepool", NBatches: 16, Tags: []string{"safepool"}, TimeoutS: 1200, Env: env},
-		{Name: "clonepool-race", NBatches: 16, Race: true, TimeoutS: 2400, Env: env},
-		{Name: "unsafepool-race", NBatches: 16, Race: true, Tags: []string{"safepool"}, TimeoutS: 2400, Env: env},
+		{Name: "clonepool", NBatches: 16, TimeoutS: 3000, Env: env},
+		{Name: "unsafepool", NBatches: 16, Tags: []string{"safepool"}, TimeoutS: 3000, Env: env},
+		{Name: "clonepool-race", NBatches: 16, Race: true, TimeoutS: 4000, Env: env},
+		{Name: "unsafepool-race", NBatches: 16, Race: true, Tags: []string{"safepool"}, TimeoutS: 4000, Env: env},
 	}
 }
 
 func nHistories(c *vp.Child) int {
 	if strings.HasSuffix(c.Stage, "-race") {
-		return c.Pick(600, 10000)
+		return c.Pick(600, 8000)
 	}
 	return c.Pick(1500, 60000)
 }
